@@ -29,12 +29,16 @@ where
     }
 
     fn map2_to_curve(p1: &PtT::Base, p2: &PtT::Base) -> PtT {
-        let mut p = {
-            let mut tmp = PtT::osswu_map(p1);
-            tmp.add_assign(&PtT::osswu_map(p2));
-            tmp
-        };
+        // The SSWU images live on the isogenous curve E' (a != 0), while the
+        // group law implemented by `add_assign` (its equal-operands case falls
+        // into the a = 0 doubling formula) is only valid on the target curve.
+        // So map each image through the isogeny first and add on the target
+        // curve, as in RFC 9380.
+        let mut p = PtT::osswu_map(p1);
         p.isogeny_map();
+        let mut q = PtT::osswu_map(p2);
+        q.isogeny_map();
+        p.add_assign(&q);
         p.clear_h();
         debug_assert!(p.into_affine().in_subgroup());
         p
